@@ -16,6 +16,10 @@
 (*       got  = what the recording hook / the instruction received for     *)
 (*              every extractor: [name, dest, val:[r, n, b]]               *)
 (*       ibytes = instruction.bytes after decode                           *)
+(*  [k:"expand"]  the trace's fmt is a format string as WRITTEN in an       *)
+(*       x86/x64 spec file (argument of @ispec_ia32): the verdict carries  *)
+(*       exp = Ia32Expand(fmt), which the driver looks up among the        *)
+(*       formats of the registered ispec_ia32 objects                      *)
 (* Verdicts are total: the first failing line and clause are recorded and  *)
 (* the trace is consumed to its end.                                       *)
 (***************************************************************************)
@@ -58,6 +62,7 @@ DecodeClause(e) ==
   ELSE "ok"
 
 Clause(e) == CASE e.k = "layout" -> LayoutClause(e)
+               [] e.k = "expand" -> IF Ia32Valid(Traces[tid].fmt) THEN "ok" ELSE "MacroChar"
                [] e.k = "decode" -> DecodeClause(e)
                [] e.k = "raised" -> "Raised"
                [] OTHER -> "UnknownEvent"
@@ -71,7 +76,9 @@ Step ==
 Finish ==
   /\ ~done /\ l > Len(Traces[tid].ev)
   /\ done' = TRUE
-  /\ PrintT(ToJson([t |-> Traces[tid].t, verdict |-> verdict, lines |-> l - 1, wf |-> lay.wf]))
+  /\ PrintT(ToJson([t |-> Traces[tid].t, verdict |-> verdict, lines |-> l - 1, wf |-> lay.wf,
+                     exp |-> IF Len(Traces[tid].ev) = 1 /\ Traces[tid].ev[1].k = "expand" /\ Ia32Valid(Traces[tid].fmt)
+                             THEN Ia32Expand(Traces[tid].fmt) ELSE <<>>]))
   /\ UNCHANGED <<tid, l, lay, verdict>>
 
 Next == Step \/ Finish
